@@ -982,7 +982,7 @@ pub fn gen_tasks_c09(rng: &mut Rng) -> Vec<TaskSpec> {
             let pos = rng.usize(steps.len());
             steps.insert(pos, AStep::Shutdown { restart: if rng.chance(1, 3) { -1 } else { (rng.below(4) * 250 * MS) as i64 } });
         }
-        v.push(TaskSpec { local: rng.chance(1, 3), join: 0, steps });
+        v.push(TaskSpec { local: rng.chance(1, 3), join: rng.below(2) as u8, steps });
     }
     v
 }
